@@ -184,9 +184,17 @@ def analyse_loop(ctx, f, loop: ast.While) -> Tuple[bool, str, dict]:
     for c in walk_no_nested(loop):
         if isinstance(c, ast.Call) and isinstance(c.func, ast.Attribute) and c.func.attr == "seek" and len(c.args) == 1 and isinstance(c.args[0], ast.Name):
             v = c.args[0].id
-            ups = [s for s in walk_no_nested(loop) if isinstance(s, ast.AugAssign) and dotted(s.target) == v]
+            ups = [s for s in walk_no_nested(loop) if (isinstance(s, ast.AugAssign) and dotted(s.target) == v)
+                   or (isinstance(s, ast.Assign) and len(s.targets) == 1 and dotted(s.targets[0]) == v
+                       and any(isinstance(x, ast.Name) and x.id == v for x in ast.walk(s.value)))]
+
+            def _advances(u):
+                if isinstance(u, ast.AugAssign):
+                    return isinstance(u.op, ast.Add) and _positive(u.value)
+                val = u.value  # v = v + k / v = k + v
+                return isinstance(val, ast.BinOp) and isinstance(val.op, ast.Add) and ((dotted(val.left) == v and _positive(val.right)) or (dotted(val.right) == v and _positive(val.left)))
             if ups and fv.enclosing(c, (ast.While,)) is loop:
-                good = [cfg.node(u) for u in ups if isinstance(u.op, ast.Add) and _positive(u.value)]
+                good = [cfg.node(u) for u in ups if _advances(u)]
                 if reaches(body_entry, H, avoiding=good):
                     return False, f"position variable {v} is not advanced on every cycle: " + " -> ".join(cfg.witness_path(body_entry, H, avoiding=list(good) + outside)[-6:]), info
                 facts.append(f"position variable {v} advances on every cycle")
